@@ -317,6 +317,11 @@ class GroupQueryAttention(pattern.RewriteRuleClassBase):
             return result.fail("Unable to determine kv_num_heads value", key_BSHkvDh)
         self.num_heads = num_heads
         self.kv_num_heads = kv_num_heads
+        # onnxruntime's GroupQueryAttention kernels (do_rotary=1) reject head sizes that are not a
+        # multiple of 16: such a model runs before the fusion and fails after it.
+        head_size = _ir_utils.get_dim(query_BSHDh, 3)
+        if isinstance(head_size, int) and head_size % 16 != 0:
+            return result.fail("head_size is not a multiple of 16", query_BSHDh)
 
         # Rotary embedding attributes
         query_rotary_attributes = query_BHSDh_rope.producer().attributes
